@@ -47,6 +47,7 @@ func evalC10(pos string, d []byte) (vs []*Violation) {
 		c.Extra = map[string]any{"pos": pos}
 		vs = append(vs, &Violation{Property: "C10", Site: site, Rule: rule, Class: class, Detail: detail, Case: c})
 	}
+	defer recoverTo4("library-call", add)
 	v := bigOf(d)
 	if v == nil {
 		return
@@ -229,6 +230,7 @@ func evalC10q(s []byte) (vs []*Violation, valid bool) {
 		c.Extra = map[string]any{"pos": "q"}
 		vs = append(vs, &Violation{Property: "C10", Site: "ParseOneContact", Rule: rule, Class: class, Detail: detail, Case: c})
 	}
+	defer recoverTo3(add)
 	str := string(s)
 	if strings.Count(str, ".") > 1 || len(str) == 0 {
 		return
@@ -372,6 +374,34 @@ func checkC10(r *Run) {
 			r.Col.add(v)
 		}
 	})
+	// a parameter written without a value has no digit string: it reports no number, whatever stands before it
+	{
+		c0 := &enumCtx{r: r, st: newStats()}
+		for _, d := range []string{"0", "1", "7", "1000", "4294967295", "4294967296"} {
+			for _, qv := range []string{"0", "1", "0.5", "1.000"} {
+				for _, tmpl := range []string{";expires=%s;q", ";expires=%s;Q;x=1", ";q=%[2]s;expires", ";x=%s;q", ";x=%s;expires", ";expires=%s;x;q", ";q=%[2]s;x;expires;y=2", ";tag=%s;q;expires"} {
+					txt := "<sip:a@b.c>" + fmt.Sprintf(tmpl, d, qv)
+					txt = strings.ReplaceAll(txt, "%!(EXTRA string="+qv+")", "")
+					buf := []byte(txt + "\r\nX")
+					var b sipsp.PFromBody
+					_, e := sipsp.ParseOneContact(buf, 0, &b)
+					c0.st.Evals++
+					c0.st.Transitions++
+					qHasVal, expHasVal := strings.Contains(strings.ToLower(txt), ";q="), strings.Contains(txt, ";expires=")
+					if e != 0 {
+						continue
+					}
+					if !qHasVal && b.Q != 0 {
+						r.Col.add(&Violation{Property: "C10", Site: "ParseOneContact", Rule: "valueless-parameter-reports-no-number", Class: "q", Detail: fmt.Sprintf("%q: Q=%d", txt, b.Q), Case: mkCase("C10valueless", "ParseOneContact", nil, buf, nil)})
+					}
+					if !expHasVal && (b.Expires != 0) {
+						r.Col.add(&Violation{Property: "C10", Site: "ParseOneContact", Rule: "valueless-parameter-reports-no-number", Class: "expires", Detail: fmt.Sprintf("%q: Expires=%d HasExpires=%v", txt, b.Expires, b.HasExpires), Case: mkCase("C10valueless", "ParseOneContact", nil, buf, nil)})
+					}
+				}
+			}
+		}
+		r.St.merge(c0.st)
+	}
 	// chunked: every schedule of "digits + terminator" for boundary values
 	var paths, cpaths, qpaths [][]byte
 	for _, small := range []string{"0000000010", "00000000007", "0000016777216", "0000000000000000000065535"} {
@@ -418,6 +448,22 @@ func init() {
 			return vs
 		}
 		return evalC10(pos, c.input())
+	}
+	replayers["C10valueless"] = func(prop string, c *Case) []*Violation {
+		buf := c.input()
+		txt := strings.ToLower(string(buf))
+		var b sipsp.PFromBody
+		if _, e := sipsp.ParseOneContact(buf, 0, &b); e != 0 {
+			return nil
+		}
+		var vs []*Violation
+		if !strings.Contains(txt, ";q=") && b.Q != 0 {
+			vs = append(vs, &Violation{Property: prop, Site: "ParseOneContact", Rule: "valueless-parameter-reports-no-number", Class: "q", Detail: fmt.Sprintf("Q=%d", b.Q), Case: c})
+		}
+		if !strings.Contains(txt, ";expires=") && b.Expires != 0 {
+			vs = append(vs, &Violation{Property: prop, Site: "ParseOneContact", Rule: "valueless-parameter-reports-no-number", Class: "expires", Detail: fmt.Sprintf("Expires=%d", b.Expires), Case: c})
+		}
+		return vs
 	}
 	register("C10", &checkDef{fn: checkC10,
 		rule:        "E4: every digit string of the bounded families placed in each numeric position (CSeq, Content-Length, Expires, Contact expires/q, URI port in 4 shapes, status) on the real parsers, compared with math/big; E1 schedule explorer for boundary values (chunked = one-shot); non-trivial = digit strings of more than one digit / in-range q values",
